@@ -73,3 +73,8 @@ CHECKS["C19"] = {
   "note": "Value equality (-0.0 == 0.0, NaN == NaN, Ref fields by referent value). JSON text only for types without Float32 leaves.",
   "technique": "property-based round-trip testing over generated class definitions, types and values",
 }
+CHECKS["C20"] = {
+  "text": "Exploration: groups of 1-4 objects of generated importable types (Struct roots of the full grammar, named Array roots, generated HybridClass objects) in 1-2 buffers of either CPU kind with a non-trivial free list, pickled together (protocols 2-5) and unpickled in-process and, for ~1/20 of the cases, in a fresh interpreter importing a generated module file. Oracle: equal at every field (handles and dressed attributes), _size restored, two-way write independence, buffer sharing structure preserved and no original buffer reused, capacity/get_free preserved, the unpickled buffer allocates at the same offsets as the original, a newly constructed object overlaps nothing. 16 workers x 300 / 5000 groups.",
+  "note": "CPU contexts; classes importable through a synthetic module or a generated module file; fitting writes.",
+  "technique": "property-based round-trip testing (pickle) with a value model and an allocator differential (original vs unpickled buffer)",
+}
